@@ -1,4 +1,5 @@
-SPECIFICATION Spec
+INIT Init
+NEXT ExpNext
 CONSTANTS
   U = "quick"
   Kind = "list"
@@ -9,7 +10,3 @@ CONSTANTS
   Avoid = FALSE
   SimK = 1
   Acts = {"dset", "oset", "rebind", "ddel", "batch", "lset", "ldel", "slice", "lins", "inplace"}
-CONSTRAINT LevelBound
-INVARIANT Conforms
-INVARIANT AltsConform
-PROPERTY RejectedWriteNoStore
